@@ -515,6 +515,14 @@ func (p *plugin) synchronize(ctx context.Context, pods []*PodSandbox, containers
 				return nil, err
 			}
 
+			// never try to send more than what is left to send
+			if podsPerMsg > len(podsToSend) {
+				podsPerMsg = len(podsToSend)
+			}
+			if ctrsPerMsg > len(ctrsToSend) {
+				ctrsPerMsg = len(ctrsToSend)
+			}
+
 			log.Debugf(ctx, "oversized message, retrying in smaller chunks")
 		}
 	}
@@ -552,8 +560,17 @@ func recalcObjsPerSyncMsg(pods, ctrs int, err error) (int, int, error) {
 		factor = 0.9
 	}
 
-	pods = int(float64(pods) * factor)
-	ctrs = int(float64(ctrs) * factor)
+	newPods := int(float64(pods) * factor)
+	newCtrs := int(float64(ctrs) * factor)
+
+	// keep making progress with both pods and containers
+	if pods > 0 && newPods == 0 {
+		newPods = 1
+	}
+	if ctrs > 0 && newCtrs == 0 {
+		newCtrs = 1
+	}
+	pods, ctrs = newPods, newCtrs
 
 	if pods+ctrs < minObjsPerMsg {
 		pods = minObjsPerMsg / 2
